@@ -79,6 +79,16 @@ def g_text(rng):
     return g_adv(rng, 0, 8)
 
 
+def g_doc(rng):
+    """help text: the escape-relevant characters \\ " LF and their mixes in every adjacency, then general text"""
+    r = rng.random()
+    if r < 0.35:
+        return ''.join(rng.choice(['"', '\\', '\n', 'n', 'a', ' ']) for _ in range(rng.randint(1, 6)))
+    if r < 0.5:
+        return rng.choice(['He said "hello"', 'a"b', '"', '\\"', '"\\', '\\n', '\n"', '"\n\\', 'x\\', 'back\\slash and "quote"\nnext'])
+    return g_text(rng)
+
+
 def g_value(rng):
     r = rng.random()
     if r < 0.5:
@@ -116,7 +126,7 @@ def g_exemplar(rng):
 def g_class_spec(rng):
     k = rng.choice(['counter', 'gauge', 'summary', 'histogram', 'info', 'enum'])
     lns = [g_name(rng) for _ in range(rng.randint(0, 2))]
-    sp = {'k': k, 'name': g_name(rng), 'doc': g_text(rng), 'labelnames': lns,
+    sp = {'k': k, 'name': g_name(rng), 'doc': g_doc(rng), 'labelnames': lns,
           'ns': g_name(rng) if rng.random() < 0.15 else '', 'ss': g_name(rng) if rng.random() < 0.15 else '',
           'unit': (g_plain(rng) if rng.random() < 0.5 else g_text(rng)) if rng.random() < 0.3 else '',
           'children': []}
@@ -141,7 +151,7 @@ FAMILY_CLASSES = ['Metric', 'GaugeMetricFamily', 'CounterMetricFamily', 'Unknown
 def g_custom_spec(rng):
     cls = rng.choice(FAMILY_CLASSES)
     name = g_name(rng)
-    sp = {'k': 'custom', 'cls': cls, 'name': name, 'doc': g_text(rng),
+    sp = {'k': 'custom', 'cls': cls, 'name': name, 'doc': g_doc(rng),
           'unit': (g_plain(rng) if rng.random() < 0.5 else g_text(rng)) if rng.random() < 0.25 else ''}
     if cls == 'Metric':
         typ = rng.choice(OM_TYPES + ('untyped',))
@@ -208,6 +218,14 @@ CORPUS = [
         {'k': 'info', 'name': 'i', 'doc': '', 'labelnames': [], 'ns': '', 'ss': '', 'unit': '', 'children': [{'lv': [], 'v': 0, 'info': {'k\n': 'v', '__x\n': 'y'}}]},
         {'k': 'counter', 'name': 'c', 'doc': 'h', 'labelnames': [], 'ns': '', 'ss': '', 'unit': '', 'children': [{'lv': [], 'v': 1.0, 'ex': {'t\n': 'x', 'a\n# EOF\nb': 'y'}}]}],
      'prefix': 'p.q', 'tags': False, 'now': 123},
+    # help text with quote, backslash, LF on families that have trailing _created / _gsum / _gcount pseudo-families in the text format
+    {'legacy': False, 'specs': [
+        {'k': 'counter', 'name': 'c3', 'doc': 'He said "hello"', 'labelnames': [], 'ns': '', 'ss': '', 'unit': '', 'children': [{'lv': [], 'v': 1.0}]},
+        {'k': 'summary', 'name': 's3', 'doc': 'q"\\\n"', 'labelnames': ['l'], 'ns': '', 'ss': '', 'unit': '', 'children': [{'lv': ['v'], 'v': 1.0}]},
+        {'k': 'histogram', 'name': 'h3', 'doc': '\\"n\n\\n"', 'labelnames': [], 'ns': '', 'ss': '', 'unit': '', 'children': [{'lv': [], 'v': 1.0}]},
+        {'k': 'custom', 'cls': 'GaugeHistogramMetricFamily', 'name': 'gh3', 'doc': '"a\\b"\n', 'unit': '', 'labelnames': [],
+         'rows': [{'lv': [], 'v': 2.0, 'ts': None, 'buckets': [['1.0', 1.0], ['+Inf', 4.0]]}]}],
+     'prefix': '', 'tags': False, 'now': 123},
     # G2: empty sample name, empty prefix
     {'legacy': False, 'specs': [{'k': 'custom', 'cls': 'Metric', 'name': 'm', 'doc': 'd', 'unit': '', 'typ': 'gauge',
                                  'samples': [{'name': '', 'labels': {}, 'value': 1.0, 'ts': None, 'ex': None}]}],
@@ -520,6 +538,32 @@ def rec_sample(s, om):
     return name, labels, ex
 
 
+def p_help(t, om):
+    """the docstring of a HELP line, unescaped.  Text format 0.0.4: exactly the escapes \\\\ and \\n, any other use of a backslash is
+    an invalid escape sequence; OpenMetrics: an escaped-string (no raw quote / backslash; escapes \\\\ \\" \\n)"""
+    out = []
+    i, n = 0, len(t)
+    while i < n:
+        c = t[i]
+        if c == '\\':
+            if i + 1 >= n:
+                raise Bad('dangling backslash in help')
+            d = t[i + 1]
+            if d == 'n':
+                out.append('\n')
+            elif d == '\\' or (om and d == '"'):
+                out.append(d)
+            else:
+                raise Bad('invalid escape sequence \\%s in help' % d)
+            i += 2
+        else:
+            if c == '\n' or (om and c == '"'):
+                raise Bad('raw %r in help' % c)
+            out.append(c)
+            i += 1
+    return ''.join(out)
+
+
 def p_meta_name(s, i):
     if s[i:i + 1] == '"':
         name, i = p_quoted(s, i + 1)
@@ -537,7 +581,7 @@ def rec_line(s, om):
             raise Bad('LF inside a line')
         if s.startswith('# HELP '):
             name, i = p_meta_name(s, 7)
-            return 'help', (name, s[i:])
+            return 'help', (name, p_help(s[i:], om))
         if s.startswith('# TYPE '):
             name, i = p_meta_name(s, 7)
             if s[i:] not in (OM_TYPES if om else TEXT_TYPES):
@@ -574,13 +618,13 @@ def expected_text(fams):
     out = []
     for f in fams:
         main = [s for s in f.samples if not any(s.name == f.name + suf for suf in TRAILING)]
-        out.append(('help', munged_name(f)))
+        out.append(('help', (munged_name(f), f.documentation)))
         out.append(('type', munged_name(f)))
         out += [('sample', s) for s in main]
         for suf in sorted(TRAILING):
             grp = [s for s in f.samples if s.name == f.name + suf]
             if grp:
-                out.append(('help', f.name + suf))
+                out.append(('help', (f.name + suf, f.documentation)))
                 out.append(('type', f.name + suf))
                 out += [('sample', s) for s in grp]
     return out
@@ -589,7 +633,7 @@ def expected_text(fams):
 def expected_om(fams):
     out = []
     for f in fams:
-        out.append(('help', f.name))
+        out.append(('help', (f.name, f.documentation)))
         out.append(('type', f.name))
         if f.unit:
             out.append(('unit', f.name))
@@ -618,7 +662,13 @@ def check_doc(data, om, fams):
     for idx, ((k, payload), (ek, obj)) in enumerate(zip(got, exp)):
         if k != ek:
             return 'line %d %r is a %s line, %s expected' % (idx, pieces[idx][:60], k, ek)
-        if k in ('help', 'type', 'unit') and payload[0] != obj:
+        if k == 'help':
+            if payload[0] != obj[0]:
+                return 'line %d names %r, family name is %r' % (idx, payload[0], obj[0])
+            if payload[1] != obj[1]:
+                return 'line %d HELP text reads %r, the family documentation is %r' % (idx, payload[1], obj[1])
+            continue
+        if k in ('type', 'unit') and payload[0] != obj:
             return 'line %d names %r, family name is %r' % (idx, payload[0], obj)
         if k == 'sample':
             name, labels, ex = payload
